@@ -7,7 +7,7 @@ sys.path.insert(0, os.path.dirname(os.path.dirname(__file__)))
 import std_specs as S
 
 PROPERTIES = ["C06", "C05", "C16"]
-MIN_VERIFIED = 1
+MIN_VERIFIED = 2
 F = 'src/operator/flat_map.rs'
 FO = 'src/operator/mod.rs'
 ASSUMPTIONS = [
@@ -16,7 +16,7 @@ ASSUMPTIONS = [
     "prev.next() returns any element (model trait Operator with a ghost history)",
     "`#[cfg(not(feature = \"timestamp\"))]` match arms are dropped (the default feature `timestamp` is assumed ON, as everywhere)",
     "termination of FlatMap::next (it pulls while the user function yields empty collections) is not verified",
-    "KeyedFlatMap::next (same structure, the key cloned into every output) is not under contract yet",
+    "KeyedItem::key returns the key of the item (model trait); Clone of a key yields an equal value (axiom_data_clone)",
 ]
 PRELUDE = r'''
 type Timestamp = i64;
@@ -41,6 +41,14 @@ trait IntoIterator: Sized {
     fn into_iter(self) -> (r: Self::IntoIter)
         ensures r.remaining() == self.items();
 }
+trait DataKey: Clone + Send + 'static {}
+trait KeyedItem: Sized {
+    type Key: DataKey;
+    type Value;
+    spec fn skey(&self) -> Self::Key;
+    fn key(&self) -> (r: &Self::Key) ensures *r == self.skey();
+}
+broadcast use trusted_axioms::axiom_data_clone;
 spec fn is_data<T>(e: StreamElement<T>) -> bool { e is Item || e is Timestamped }
 spec fn payload<T>(e: StreamElement<T>) -> T { match e { StreamElement::Item(x) => x, StreamElement::Timestamped(x, _) => x, _ => arbitrary() } }
 spec fn ts_of<T>(e: StreamElement<T>) -> Option<Timestamp> { match e { StreamElement::Timestamped(_, t) => Some(t), _ => None } }
@@ -73,6 +81,63 @@ where
     }
     spec fn pulled(o: &Self, n: &Self) -> Seq<StreamElement<Op::Out>> { n.prev.hist().skip(o.prev.hist().len() as int) }
 }
+'''
+K_SPEC_IMPL = r'''
+impl<It, F, Op> KeyedFlatMap<It, F, Op>
+where
+    Op: Operator,
+    Op::Out: KeyedItem,
+    It: IntoIterator,
+    It::IntoIter: Send,
+    It::Item: Send,
+    F: Fn(Op::Out) -> It + Clone + Send,
+{
+    spec fn rem(&self) -> Seq<It::Item> { match self.frontiter { Some((_, it)) => it.remaining(), None => Seq::empty() } }
+    spec fn dropped(f: F, e: StreamElement<Op::Out>) -> bool {
+        is_data(e) && exists|c: It| #[trigger] f.ensures((payload(e),), c) && c.items().len() == 0
+    }
+    spec fn expands_to(f: F, e: StreamElement<Op::Out>, x: It::Item, rest: Seq<It::Item>) -> bool {
+        is_data(e) && exists|c: It| #[trigger] f.ensures((payload(e),), c) && c.items().len() > 0 && c.items()[0] == x && c.items().skip(1) == rest
+    }
+    spec fn pulled(o: &Self, n: &Self) -> Seq<StreamElement<Op::Out>> { n.prev.hist().skip(o.prev.hist().len() as int) }
+}
+'''
+K_NEXT_SPEC = r'''
+        requires forall|x: Op::Out| old(self).f.requires((x,)),
+        ensures
+            final(self).f == old(self).f,
+            final(self).prev.hist().len() >= old(self).prev.hist().len(),
+            // items pending from the current input element leave first, one per call, in order, with that element's key and timestamp
+            old(self).rem().len() > 0 ==> {
+                &&& Self::pulled(old(self), final(self)).len() == 0                                          // #obl:keyed_flat_map.nothing_pulled_while_items_are_pending
+                &&& r == stamp(((old(self).frontiter->0).0, old(self).rem()[0]), old(self).timestamp)          // #obl:keyed_flat_map.pending_items_leave_in_order_with_their_inputs_key_and_timestamp
+                &&& final(self).rem() == old(self).rem().skip(1) && final(self).timestamp == old(self).timestamp
+                &&& final(self).frontiter is Some && (final(self).frontiter->0).0 == (old(self).frontiter->0).0
+            },
+            old(self).rem().len() == 0 ==> {
+                let p = Self::pulled(old(self), final(self));
+                &&& p.len() >= 1
+                &&& forall|i: int| 0 <= i < p.len() - 1 ==> Self::dropped(old(self).f, #[trigger] p[i])     // #obl:keyed_flat_map.only_inputs_with_an_empty_image_are_skipped
+                &&& (!is_data(p.last()) ==> r == retyped::<Op::Out, (<Op::Out as KeyedItem>::Key, It::Item)>(p.last()) && !(p.last() is FlushBatch && !(r is FlushBatch)) && final(self).rem().len() == 0)   // #obl:keyed_flat_map.control_unchanged_and_only_when_nothing_is_pending
+                &&& (is_data(p.last()) ==> (r is Item || r is Timestamped) && r == stamp(payload(r), ts_of(p.last()))
+                        && payload(r).0 == payload(p.last()).skey()                                          // #obl:keyed_flat_map.items_keep_the_key_of_their_input
+                        && Self::expands_to(old(self).f, p.last(), payload(r).1, final(self).rem()) && final(self).timestamp == ts_of(p.last())
+                        && final(self).frontiter is Some && (final(self).frontiter->0).0 == payload(p.last()).skey())   // #obl:keyed_flat_map.first_item_of_a_new_input_carries_its_key_and_timestamp
+            },
+'''
+K_LOOP_INV = r'''
+            invariant
+                self.f == old(self).f, forall|x: Op::Out| self.f.requires((x,)),
+                self.prev.hist().len() >= old(self).prev.hist().len(),
+                Self::pulled(old(self), self).len() == 0 ==> self.frontiter == old(self).frontiter && self.timestamp == old(self).timestamp,
+                Self::pulled(old(self), self).len() > 0 ==> {
+                    let p = Self::pulled(old(self), self);
+                    &&& old(self).rem().len() == 0
+                    &&& forall|i: int| 0 <= i < p.len() - 1 ==> Self::dropped(old(self).f, #[trigger] p[i])
+                    &&& is_data(p.last()) && self.frontiter is Some && self.timestamp == ts_of(p.last())   // #obl:keyed_flat_map.items_carry_the_timestamp_of_the_input_they_derive_from
+                    &&& (self.frontiter->0).0 == payload(p.last()).skey()                                    // #obl:keyed_flat_map.items_carry_the_key_of_the_input_they_derive_from
+                    &&& exists|c: It| #[trigger] old(self).f.ensures((payload(p.last()),), c) && c.items() == (self.frontiter->0).1.remaining()
+                },
 '''
 NEXT_SPEC = r'''
         requires forall|x: Op::Out| old(self).f.requires((x,)),
@@ -173,4 +238,41 @@ def build(x):
     nx.sub('V-SPEC', r'match self\.prev\.next\(\) \{', 'let __e = self.prev.next();\n            proof { let k = old(self).prev.hist().len() as int; assert(self.prev.hist().skip(k) =~= h0.skip(k).push(__e)); assert(self.prev.hist().skip(k).drop_last() =~= h0.skip(k)); }\n            match __e {',
            detail='scrutinee bound to a ghost-visible name `__e`', must=True)
     pieces += ["impl<It, F, Op> FlatMap<It, F, Op>\nwhere\n    Op: Operator,\n    It: IntoIterator,\n    It::IntoIter: Send,\n    It::Item: Send,\n    F: Fn(Op::Out) -> It + Clone + Send,\n{", nx, "}"]
+
+    # ---- KeyedFlatMap
+    ks = x.struct(F, 'KeyedFlatMap')
+    ks.text = '#[verifier::reject_recursive_types(It)]\n#[verifier::reject_recursive_types(F)]\n#[verifier::reject_recursive_types(Op)]\n' + ks.text
+    kn = x.method(F, 'KeyedFlatMap', 'next', trait='Operator')
+    drop_cfg_not_timestamp_arms(kn)
+    kn.sub('V-ATTR', r'[ \t]*#\[cfg\(feature = "timestamp"\)\]\s*\n', '', detail='`#[cfg(feature = "timestamp")]` on a match arm dropped (feature ON)')
+    kn.replace_exact('V-TRAIT', 'StreamElement<Self::Out>', 'StreamElement<(<Op::Out as KeyedItem>::Key, It::Item)>', detail='associated type Out substituted by its definition', count=None)
+    kn.name_result('r')
+    kn.add_spec(K_NEXT_SPEC)
+    kn.text = '#[verifier::exec_allows_no_decreases_clause]\n' + kn.text
+    kn.sub('V-SPEC', r'let (\w+) = \(self\.f\)\((\w+)\)\.into_iter\(\);', r'let ghost __x = \2; let __c = (self.f)(\2); let ghost __ci = __c; let \1 = __c.into_iter(); proof { assert(self.f.ensures((__x,), __ci) && __ci.items() == \1.remaining()); assert(payload(__e) == __x); assert(exists|c: It| #[trigger] old(self).f.ensures((payload(__e),), c) && c.items() == \1.remaining()); }',
+           detail='the user function\'s result bound to a ghost-visible name: `let iter = (self.f)(kv).into_iter();` -> `let __c = (self.f)(kv); let iter = __c.into_iter();`', must=True)
+    kn.insert_before('loop', 'proof { assert(Self::pulled(old(self), self) =~= Seq::<StreamElement<Op::Out>>::empty()); }\n        ')
+    kn.insert_at_loop_end(1, '''proof {
+                let p = Self::pulled(old(self), self);
+                assert forall|i: int| 0 <= i < p.len() - 1 implies Self::dropped(old(self).f, #[trigger] p[i]) by { assert(p[i] == h0.skip(old(self).prev.hist().len() as int)[i]); }
+                assert(p.last() == __e);
+                assert(exists|c: It| #[trigger] old(self).f.ensures((payload(p.last()),), c) && c.items() == (self.frontiter->0).1.remaining());
+            }
+        ''')
+    kn.add_loop_spec(1, K_LOOP_INV)
+    kn.insert_before(re.compile(r'if let Some\(\((?:ref )?\w+, (?:ref mut )?\w+\)\) = self\.frontiter'), 'let ghost fr0 = self.frontiter;\n            ')
+    kn.insert_before('match self.prev.next() {', '''let ghost h0 = self.prev.hist();
+            proof {
+                assert(self.rem().len() == 0);
+                let p0 = Self::pulled(old(self), self);
+                if p0.len() > 0 {
+                    let c = choose|c: It| #[trigger] old(self).f.ensures((payload(p0.last()),), c) && c.items() == (fr0->0).1.remaining();
+                    assert(c.items().len() == 0);
+                    assert(Self::dropped(old(self).f, p0.last()));
+                }
+            }
+            ''')
+    kn.sub('V-SPEC', r'match self\.prev\.next\(\) \{', 'let __e = self.prev.next();\n            proof { let k = old(self).prev.hist().len() as int; assert(self.prev.hist().skip(k) =~= h0.skip(k).push(__e)); assert(self.prev.hist().skip(k).drop_last() =~= h0.skip(k)); }\n            match __e {',
+           detail='scrutinee bound to a ghost-visible name `__e`', must=True)
+    pieces += [S.CLONE_IS_EQ, ks, K_SPEC_IMPL, "impl<It, F, Op> KeyedFlatMap<It, F, Op>\nwhere\n    Op: Operator,\n    Op::Out: KeyedItem,\n    It: IntoIterator,\n    It::IntoIter: Send,\n    It::Item: Send,\n    F: Fn(Op::Out) -> It + Clone + Send,\n{", kn, "}"]
     return pieces
